@@ -64,6 +64,22 @@ Proof. unfold upd. now rewrite N.eqb_refl. Qed.
 Lemma upd_other f p v q : q <> p -> upd f p v q = f q.
 Proof. unfold upd. intros H. destruct (N.eqb_spec q p); congruence. Qed.
 
+Lemma resolve_nonlink : forall n f p q, resolve n f p = Some q -> islink f q = false.
+Proof.
+  induction n as [|n IH]; intros f p q H; cbn in H; [discriminate|].
+  destruct (f p) as [[c g|g|t|]|] eqn:Hp; try (inversion H; subst; unfold islink; now rewrite Hp).
+  eapply IH; eauto.
+Qed.
+
+Lemma resolve_fix n f q : islink f q = false -> resolve (S n) f q = Some q.
+Proof. unfold islink. cbn. destruct (f q) as [[c g|g|t|]|]; congruence. Qed.
+
+Lemma read_path_realpath f p c0 : read_path f p = Some c0 -> read_path f (realpath f p) = Some c0.
+Proof.
+  unfold read_path, realpath. destruct (resolve max_hops f p) as [q|] eqn:Hr; [|discriminate].
+  intros H. unfold max_hops. rewrite (resolve_fix 40 f q (resolve_nonlink _ _ _ _ Hr)). exact H.
+Qed.
+
 Lemma node_eq_dec : forall a b : option node, {a = b} + {a <> b}.
 Proof. repeat decide equality. Qed.
 
@@ -351,9 +367,7 @@ Qed.
 Lemma follow_stable c0 f m : stable c0 f m -> islink f (mfile m) = true ->
   stable c0 f (mkM (realpath f (mfile m)) (minput m) (moutput m)).
 Proof.
-  intros [Hr Hi] Hl. unfold stable. cbn. split; [|exact Hi].
-  unfold islink, realpath, read_path in *. destruct (f (mfile m)) as [[c g|t|]|]; try discriminate.
-  destruct (f t) as [[c g|t'|]|] eqn:Ht; try discriminate. exact Hr.
+  intros [Hr Hi] _. unfold stable. cbn. split; [|exact Hi]. now apply read_path_realpath.
 Qed.
 
 (* --- the rewriter fails on the file: nothing is written, whatever the tuple *)
@@ -516,11 +530,12 @@ Proof.
 Qed.
 
 Lemma follow_changes_only_target t rest file s p :
-  pfs s file = Some (NLink t) -> islink (pfs s) t = false -> p <> t ->
+  islink (pfs s) file = true -> resolve max_hops (pfs s) file = Some t -> p <> t ->
   pfs (snd (run_actions fx modf (SymFollow :: rest) (fresh file) s)) p = pfs s p.
 Proof.
-  intros Hf Ht Hp. rewrite run_actions_cons. cbn. unfold islink at 1. rewrite Hf.
-  apply writes_only_there; cbn; unfold realpath; rewrite Hf; auto.
+  intros Hl Hr Hp. rewrite run_actions_cons. cbn. rewrite Hl.
+  apply writes_only_there; cbn; unfold realpath; rewrite Hr; auto.
+  eapply resolve_nonlink; eauto.
 Qed.
 End Noop.
 
@@ -592,7 +607,8 @@ Proof.
 Qed.
 
 Lemma follow_only_target l x t rest p :
-  acts = SymFollow :: rest -> pfs (lst l) x = Some (NLink t) -> islink (pfs (lst l)) t = false -> p <> t ->
+  acts = SymFollow :: rest -> islink (pfs (lst l)) x = true ->
+  resolve max_hops (pfs (lst l)) x = Some t -> p <> t ->
   pfs (lst (file_step fx modf acts l x)) p = pfs (lst l) p.
 Proof.
   intros Hacts Hx Ht Hp. destruct (lfatal l) eqn:Hf; [now rewrite file_step_fatal|].
